@@ -25,6 +25,7 @@
 #include <fcntl.h>
 #include <poll.h>
 #include <sys/mman.h>
+#include <sys/resource.h>
 #include <sys/stat.h>
 #include <sys/types.h>
 #include <sys/wait.h>
@@ -417,6 +418,13 @@ inline ChildRun run_child(const std::function<void(int)> &fn, int timeout_s = 0,
   }
   if (pid == 0) {
     close(pfd[0]);
+    {
+      struct rlimit rl;
+      if (getrlimit(RLIMIT_NOFILE, &rl) == 0 && rl.rlim_cur < rl.rlim_max) {
+        rl.rlim_cur = rl.rlim_max;
+        setrlimit(RLIMIT_NOFILE, &rl);
+      }
+    }
     int efd = open(errpath.c_str(), O_WRONLY | O_CREAT | O_TRUNC, 0600);
     if (efd >= 0) {
       dup2(efd, 2);
